@@ -328,6 +328,8 @@ def loadProps (st : LS) (name : String) : List PropDef → Std.HashMap String Nu
       | .ok output =>
         match Number.div input output with
         | .ok ratio =>
+          -- after the fix: a zero input is refused as well (`Substance::get` divides by it)
+          if input.value == .rational 0 then .error "zero property input" else
           let uniq := [p.name, p.inputName, p.outputName].eraseDups
           let existing := ((prev.find? fun x => x.1 == ratio.unit).map (·.2)).getD []
           let conflicts := existing.filter fun n => uniq.contains n
